@@ -986,6 +986,10 @@ func (e *Env) trCall(x *Call) Val {
 	case "payload":
 		s, _ := argS(0)
 		return Val{T: tInt, S: "(i_val " + s + ")"}
+	case "chancap":
+		s, _ := argS(0)
+		vc.useChanCap()
+		return Val{T: tInt, S: "(chan_cap " + s + ")"}
 	case "real":
 		s, t := argS(0)
 		return Val{T: tFloat, S: e.coerceNum(s, t, tyReal)}
